@@ -181,6 +181,40 @@ theorem C43_findall_f77 (k : Op) : ∀ (l : Line) (n : Nat), ∀ m ∈ findallF7
         · exact ih _ m h
         · exact ih _ m h
 
+/-! ## `DynamicUboundCheckRule` (decision model) -/
+
+/-- only plain assumed-shape arguments (every dimension declared `:`; `a(0:)` is not one) are reported -/
+theorem C43_ubound_reported_assumed (args : List UArg) (calls : List ICall) :
+    ∀ n ∈ uboundReported args calls, ∃ a ∈ args, a.name = n ∧ a.assumed = true := by
+  intro n hn
+  simp only [uboundReported, List.mem_map, List.mem_filter, Bool.and_eq_true] at hn
+  obtain ⟨a, ⟨ha, hasm, _⟩, rfl⟩ := hn
+  exact ⟨a, ha, rfl, hasm⟩
+
+/-- the comparison that supplies the new extent of dimension `d` of argument `a` is one of the recorded comparisons and
+mentions `a` itself and the literal `d`: an extent is never taken from the check of another argument or dimension -/
+theorem C43_ubound_shape_own (calls : List ICall) (a : UArg) (d : Nat) (c : ICall)
+    (h : compOfDim calls a d = some c) : c ∈ calls ∧ c.arg = a.name ∧ c.dim = some d := by
+  unfold compOfDim at h
+  split at h
+  · cases h
+  · have hm := List.mem_of_find?_eq_some h
+    have hp := List.find?_some h
+    simp only [Bool.and_eq_true, beq_iff_eq] at hp
+    exact ⟨hm, hp.1.2, hp.2⟩
+
+/-- every extent of the new shape is the extent of such a comparison -/
+theorem C43_ubound_shape_from_own (calls : List ICall) (a : UArg) :
+    ∀ e ∈ uboundShape calls a, e = "?" ∨ ∃ c ∈ calls, c.arg = a.name ∧ e = c.extent := by
+  intro e he
+  simp only [uboundShape, List.mem_map, List.mem_range] at he
+  obtain ⟨d, _, rfl⟩ := he
+  cases h : compOfDim calls a (d + 1) with
+  | none => exact Or.inl rfl
+  | some c =>
+    obtain ⟨hm, ha, _⟩ := C43_ubound_shape_own calls a (d + 1) c h
+    exact Or.inr ⟨c, hm, ha, rfl⟩
+
 /-! ## non-vacuity -/
 
 example : specFix .code ['a', '.', 'E', 'q', '.', 'b'] = ['a', '=', '=', 'b'] := by
